@@ -1,6 +1,6 @@
 (* C01 — data values are inert.  Theorems only. *)
 From V Require Import Base.Bytes Base.Val Model.Stack Model.Escape Model.Interp Model.Tok
-  Proofs.EscapeP Proofs.TokP Proofs.InterpP.
+  Proofs.EscapeP Proofs.TokP Proofs.InterpP Model.Hole Proofs.HoleP.
 
 (* 1. an escaped string in the data state produces no tag: the tokenizer stays in Data and only
       accumulates character data - for ALL byte strings *)
@@ -38,3 +38,16 @@ Example C01_hostile_tree :
   let n := Elem (bs "a") [(bs "title", bs """><script>x</script>&amp;{{ secret }}")] [Text (bs "</a><b>&lt;{{ secret }}")] in
   skel (snd (run (Data []) (ser n))) = [SStart (bs "a") [bs "title"]; SEnd (bs "a")].
 Proof. vm_compute. reflexivity. Qed.
+
+(* 5. evaluator-wide inertness, on the miniature evaluator of Model/Hole.v (text interpolation, static and
+      bound attributes, v-text, v-if / v-else, v-if comparing with a literal, v-for, nested arbitrarily;
+      compared with the engine on concrete data by the "mini" stream): if a template runs to completion
+      with opaque HOLES in place of some string values - i.e. no construct inspects their content - then
+      with ANY concrete string s in their place it runs to completion too, and the result is the same DOM
+      with s filled in verbatim: s contributes characters to the text runs and attribute values that held
+      the hole, and nothing else - no element, no attribute name, no evaluation of what s spells *)
+Theorem C01_hole_parametricity : forall (s : bytes) fuel r t d,
+  cons_e s r = true -> eval fuel r t = Ok d ->
+  exists d', eval fuel (senv s r) t = Ok d' /\ rel s d d'.
+Proof. intros s fuel r t d. exact (eval_hole_param s fuel r t d). Qed.
+Print Assumptions C01_hole_parametricity.
